@@ -192,7 +192,7 @@ def normalise(F, fn, keep=(), depth=3, _stack=()):
                 sites.append((bb, "helper", g))
                 continue
             cs = c.get("closure_self")
-            if cs and F.fns.get(cs["id"]) is not None and depth > 0 and cs["id"] not in _stack:
+            if cs and F.fns.get(cs["id"]) is not None and depth > 0 and cs["id"] not in _stack and p.endswith(("::call_once", "::call_mut", "::call")):
                 sites.append((bb, "closure-call", F.fns[cs["id"]]))
                 continue
             # `f(args)` on a function parameter of a helper that has been put into its caller: the closure is known now
